@@ -85,3 +85,25 @@ def kill_preemption(ctx, name, st, key, on_cex=None):
             ctx.prove('%s.%s_%s_not_in_a_poll_that_began_with_a_kill_waiting.%d' % (name, e[2], e[1], n), st.pc, z3.Not(cur),
                       group='%s.a_waiting_kill_preempts_every_callback' % key, key=key + '.a_waiting_kill_preempts_every_callback', on_cex=on_cex)
     return n
+
+
+def kill_look_before_every_callback(ctx, name, st, key, skip=(), on_cex=None):
+    """C01 / C03: the first poll of every callback is immediately preceded by a look at the kill port - no other shared operation, and in particular no dequeue,
+    lies between the two. That is what bounds "once kill() has returned no further callback starts" to the few instructions between that look and the callback's
+    first instruction: a kill that arrives anywhere earlier (e.g. between the loop picking up a stop request and post_stop) is seen by that look."""
+    tr = st.trace
+    bad = []
+    n = 0
+    for i, e in enumerate(tr):
+        if e[0] == 'CB' and e[1] == 'start' and e[2] not in skip:
+            n += 1
+            j = i - 1
+            while j >= 0 and tr[j][0] not in ('OP', 'RECV', 'CB'):
+                j -= 1
+            okk = j >= 0 and tr[j][0] == 'OP' and tr[j][1] == 'sigq' and tr[j][2] == 'poll'
+            if not okk:
+                bad.append(e[2])
+    if n:
+        ctx.prove('%s.the_kill_port_is_looked_at_immediately_before_every_callback_starts' % name, st.pc, z3.BoolVal(not bad),
+                  group='%s.the_kill_port_is_looked_at_immediately_before_every_callback_starts' % key, key=key + '.the_kill_port_is_looked_at_immediately_before_every_callback_starts', on_cex=on_cex)
+    return n
